@@ -360,6 +360,13 @@ func (r *ATRun) PhaseOne(hook func(r *ATRun, localIdx int)) {
 			return errors.New("roll the global transaction back")
 		})
 	})
+	if os.Getenv("VERIF_DEBUG") != "" {
+		for _, e := range w.Eng.Journal() {
+			if e.Kind != "connect" && e.Table != "COLUMNS" && e.Table != "STATISTICS" {
+				fmt.Fprintln(os.Stderr, "DEBUG P1", c.ID, e.Conn, e.Kind, e.SQL, e.Args, e.Err)
+			}
+		}
+	}
 	r.Toks = append(r.Toks, "END")
 }
 
